@@ -234,8 +234,8 @@ def in_domain(name, args, n):
     if name in ("add", "sub", "mul", "neg", "pos"):
         return True
     if name in ("lt", "le", "eq", "ne", "gt", "ge"):
-        if _isb(args[0]) and ints[1] not in (0, 1):
-            return False
+        if anyb and any(a not in (0, 1) for a in ints):
+            return False    # boolean compared with a non-boolean value: conversion may refuse
         return True
     if anyb and name in ("and", "or", "xor"):
         return all(a in (0, 1) for a in ints)
@@ -313,3 +313,40 @@ def ref_plain(v):
     if v is None:
         return None
     return int(v)
+
+
+def ref_steps(e, kinds, vals, n):
+    """Post-order list of reference steps [(op, args, kind, value, in_domain)], kind in
+    value|raise|any; evaluation stops at the first step that has no value."""
+    steps = []
+
+    class Stop(Exception):
+        pass
+
+    def go(x):
+        if x[0] == "in":
+            return ref_input(kinds[x[1]], vals[x[1]])
+        args = [go(s) for s in x[2:]]
+        dom = in_domain(x[1], args, n)
+        try:
+            if x[1] == "pow" and abs(_i(args[0])) > 1 and _i(args[1]) > 4096:
+                raise RefAny
+            v = REF[x[1]](*args)
+        except RefRaise:
+            steps.append((x[1], args, "raise", None, dom))
+            raise Stop
+        except RefAny:
+            steps.append((x[1], args, "any", None, dom))
+            raise Stop
+        steps.append((x[1], args, "value", v, dom))
+        return v
+
+    try:
+        go(e)
+    except Stop:
+        pass
+    return steps
+
+
+def signs(args):
+    return "".join("0" if _i(a) == 0 else ("+" if _i(a) > 0 else "-") for a in args)
